@@ -43,6 +43,10 @@ pub enum Expr {
 #[derive(Clone, Debug, Serialize, Deserialize)]
 pub struct Case {
     pub expr: Expr,
+    /// when present: replay the history-independence pass - evaluate, sequentially and each from fresh
+    /// leaves with all temporaries dropped, the first `n + 1` programs of the canonical (<= 2 operator) order
+    #[serde(default)]
+    pub fresh_sequence_upto: Option<u64>,
 }
 
 pub trait RN: Clone + Send + Sync {
@@ -790,7 +794,14 @@ pub fn explore_programs<T: RN>(prop: &str, kfull: usize, kmax: usize, fd_level: 
         }
         eprintln!("  level {}: {} candidate programs, {} kept as sub-programs", k, ntask, pool.ents.len() - start);
     }
+    // ---- history independence: every program of <= 2 operators again, evaluated sequentially on ONE thread,
+    // each from freshly constructed leaves with every temporary dropped afterwards (so that anything the
+    // library remembers between calls - a cache keyed on addresses, a reused buffer - meets re-used storage)
+    let upto = pool.lvl[2.min(kmax.saturating_sub(1)).max(1)].1;
+    let (hacc, hcount) = fresh_pass::<T>(prop, &pool, upto, None);
+    total = total.merge(hacc);
     let bound = json!({
+        "fresh_sequential_re-evaluations": hcount,
         "max_operators_all_forms": kfull,
         "max_operators_canonical_form": kmax,
         "candidate_programs_per_level": level_tasks,
@@ -800,6 +811,43 @@ pub fn explore_programs<T: RN>(prop: &str, kfull: usize, kmax: usize, fd_level: 
         "float_literals": LITS,
     });
     (total, bound)
+}
+
+/// sequential fresh re-evaluation of pool entries [first program .. upto); `stop_after`: replay mode
+fn fresh_pass<T: RN>(prop: &str, pool: &Pool<T>, upto: usize, stop_after: Option<u64>) -> (Acc, u64) {
+    let mut acc = Acc::new();
+    let mut n = 0u64;
+    let start = pool.lvl[0].1;
+    for (seq, e) in pool.ents[start..upto].iter().enumerate() {
+        if let Some(s) = stop_after {
+            if seq as u64 > s {
+                break;
+            }
+        }
+        let ex = pool.expr(&e.node);
+        let before = acc.violations.len();
+        let leaves = T::make_leaves();
+        let r = guarded(|| {
+            let mut local = Acc::new();
+            let _ = eval_expr::<T>(&ex, &leaves, true, &mut local, &format!("{}/after-other-evaluations", prop));
+            local
+        });
+        drop(leaves);
+        n += 1;
+        acc.eval();
+        match r {
+            Ok(local) => {
+                for v in local.violations {
+                    acc.violate(&v.key, seq as u64, json!({"expr": ex, "fresh_sequence_upto": seq}), v.expected, json!(format!("as evaluation #{} in a sequence of fresh evaluations: {}", seq, v.observed)));
+                }
+            }
+            Err(m) => acc.violate(&format!("{}/after-other-evaluations/panic", prop), seq as u64, json!({"expr": ex, "fresh_sequence_upto": seq}), json!("a value"), json!(m)),
+        }
+        if acc.violations.len() > before + 8 {
+            break;
+        }
+    }
+    (acc, n)
 }
 
 // ---- replay of one expression tree -----------------------------------------------------------
@@ -883,6 +931,35 @@ fn eval_expr<T: RN>(ex: &Expr, leaves: &[T], forms: bool, acc: &mut Acc, prop: &
 }
 
 pub fn replay_case<T: RN>(prop: &str, case: &Case, _idx: u64, acc: &mut Acc) {
+    if let Some(n) = case.fresh_sequence_upto {
+        // rebuild the (deterministic) pool of <= 2-operator programs, then replay the sequential pass
+        let leaves = T::make_leaves();
+        let mut pool: Pool<T> = Pool { ents: vec![], lvl: vec![] };
+        for (i, l) in leaves.into_iter().enumerate() {
+            let rf = ref_leaf(i as u8, T::SECOND);
+            pool.ents.push(Ent { node: Node::Leaf(i as u8), real: l, rf, pv: rf.val.v });
+        }
+        pool.lvl.push((0, pool.ents.len()));
+        for k in 1..=2usize {
+            let ntask = task_count(&pool, k);
+            let mut newents = vec![];
+            let mut scratch = Acc::new();
+            for i in 0..ntask {
+                let node = task_at(&pool, k, i);
+                if let Some(b) = build_and_check(&pool, &node, k, false, prop, i, &mut scratch) {
+                    newents.push(Ent { node, real: b.real, rf: b.rf, pv: b.pv });
+                }
+            }
+            let start = pool.ents.len();
+            pool.ents.extend(newents);
+            pool.lvl.push((start, pool.ents.len()));
+        }
+        let (a, _) = fresh_pass::<T>(prop, &pool, pool.lvl[2].1, Some(n));
+        for v in a.violations {
+            acc.violate(&v.key, v.index, v.case, v.expected, v.observed);
+        }
+        return;
+    }
     let leaves = T::make_leaves();
     let _ = eval_expr::<T>(&case.expr, &leaves, true, acc, prop);
 }
